@@ -193,6 +193,11 @@ func (p *SM2Point) bytes(out *[SM2BytesLengthUncompressed]byte, safe bool) []byt
 	}
 }
 
+// IsInfinity reports whether p is the point at infinity.
+func (p *SM2Point) IsInfinity() bool {
+	return p.z.IsZero() == 1
+}
+
 func (q *SM2Point) Negate(p *SM2Point) *SM2Point {
 	q.x.Set(p.x)
 	q.y.Opp(p.y)
